@@ -193,8 +193,7 @@ func init() {
 				} else {
 					e.addPC(nz)
 				}
-				// JSON numbers above 2^63 do not survive the schema library's integer check; stay below
-				e.addPC(e.tt.BVCmp("bvult", v, e.tt.BV(64, 1<<53)))
+				// (the whole uint64 range: json.Unmarshal and the schema library read integers of that size exactly)
 				at.ByVol = append(at.ByVol, PromoV{Vol: v, Disc: disc(fmt.Sprintf("%s.v%d.disc", name, i))})
 			}
 			// schema: uniqueItems
